@@ -30,7 +30,7 @@ PROPS = {
                 slice="ToFunction.v (more_out) result trees vs the compiled function",
                 trusted=["no axioms (Print Assumptions: closed under the global context)",
                          "Blocks.v / ToFunction.v as models of the Python code (tied by the correspondence)"]),
-    "C16": dict(prop_file="props/C16.v", generators=ENG, module="harness.p_dyn",
+    "C16": dict(prop_file="props/C16.v", generators=ENG + ["T-tables"], module="harness.p_dyn",
                 slice="ToFunction.v with declared parameters vs the compiled function",
                 trusted=DYN_TRUST + ["ToFunction.v (hand-written; tied by the compile correspondence)"]),
     "C06": dict(prop_file="props/C06.v", generators=[], module="harness.p_valid",
